@@ -1,13 +1,15 @@
 #!/venv/bin/python
-"""C19 finding (known, not fixed): `python -m mokapot.parsers.pin_to_tsv in.pin out.tsv` opens out.tsv with mode 'a'.
+"""F23 (property C19; repaired in /repo 2fc2141): `python -m mokapot.parsers.pin_to_tsv in.pin out.tsv` opened out.tsv
+with mode 'a'.
 
 Property C19: "Converting a PIN file ... yields a rectangular table with the same header and one line per PSM in the
-original order ...  The output is recognised as valid ...".  When the output path already holds something (the result of
-an earlier conversion, say) the module's command line appends to it: the file then holds the old content, a second header
-and the new rows - not the table, and in general not a valid one.  (mokapot.main had the same defect for <pin>.tsv; it
-was repaired there in c1411a6, the stand-alone command line still has it.)
+original order ...  The output is recognised as valid ...".  When the output path already held something (the result of
+an earlier conversion, say) the module's command line appended to it: the file then held the old content, a second header
+and the new rows - not the table, and in general not a valid one.  (mokapot.main had the same defect for <pin>.tsv,
+repaired in c1411a6; the stand-alone command line followed in 2fc2141.)
 
-Run:  PYTHONPATH=/repo /venv/bin/python repo_fixes/C19-finding-main-append.py   exit 1 = the defect shows, 0 = it does not."""
+Run:  PYTHONPATH=/repo /venv/bin/python repo_fixes/F23-repro-pin-to-tsv-main-append.py   exit 1 = the defect shows (tree
+before 2fc2141), 0 = it does not."""
 import os
 import sys
 import tempfile
